@@ -2599,9 +2599,30 @@ func init() {
 					if !ok || sel.Sel.Name != "P" || !isProtogen(info.TypeOf(sel.X), "GeneratedFile") {
 						return true
 					}
-					for _, a := range call.Args {
+					// text emitted so far on this line: a name inside a comment or inside a string literal of the emitted code is
+					// harmless (it is not a type reference)
+					inString, comment := false, false
+					for ai, a := range call.Args {
+						if bl, ok := unparen(a).(*ast.BasicLit); ok && bl.Kind == token.STRING {
+							if val, err := strconv.Unquote(bl.Value); err == nil {
+								if ai == 0 && strings.HasPrefix(strings.TrimSpace(val), "//") {
+									comment = true
+								}
+								for i := 0; i < len(val); i++ {
+									if val[i] == '\\' && inString {
+										i++
+									} else if val[i] == '"' || val[i] == '`' {
+										inString = !inString
+									}
+								}
+							}
+							continue
+						}
 						if isProtogen(info.TypeOf(a), "GoIdent") {
 							sites++
+							continue
+						}
+						if comment || inString {
 							continue
 						}
 						if bareForeignName(a, 0) {
@@ -2616,5 +2637,134 @@ func init() {
 			probs = append(probs, "no P argument of type protogen.GoIdent found in the Go emitters: the rule would be vacuous")
 		}
 		return []OblResult{structResult("C13.types.import_qualified", "in protoc-gen-go-http and protoc-gen-go-client no P call prints the bare GoName of a message obtained through Field.Message, Method.Input or Method.Output (directly, through a local, a struct field of the generator or a string built from it): such types reach emitted Go only as protogen.GoIdent, which protogen import-qualifies", uniq(probs))}
+	}
+}
+
+// ---------------------------------------------------------------------------------------
+// C16: the generators are sequential programs. The termination argument of C16 (measures on every call cycle, loop shapes,
+// no-panic sweep) is an argument about one thread of control; a goroutine, a channel operation, a select or a blocking
+// sync primitive adds ways not to answer (deadlock, a receive nobody serves) that none of those obligations sees. Rule:
+// the generator packages and plugin mains contain none of them.
+func init() {
+	structuralRules["c16.sequential"] = func(w *World) []OblResult {
+		var probs []string
+		pkgs := 0
+		for _, pkgPath := range w.sortedRepoPkgs() {
+			pkg := w.ByPath[pkgPath]
+			if pkg == nil || pkg.TypesInfo == nil || !(strings.Contains(pkgPath, "/internal/") || strings.Contains(pkgPath, "/cmd/")) {
+				continue
+			}
+			pkgs++
+			info := pkg.TypesInfo
+			for _, file := range pkg.Syntax {
+				fn := w.Fset.Position(file.Pos()).Filename
+				if strings.HasSuffix(fn, "_test.go") {
+					continue
+				}
+				ast.Inspect(file, func(n ast.Node) bool {
+					switch x := n.(type) {
+					case *ast.GoStmt:
+						probs = append(probs, fmt.Sprintf("go statement (%s)", w.pos(x.Pos())))
+					case *ast.SendStmt:
+						probs = append(probs, fmt.Sprintf("channel send (%s)", w.pos(x.Pos())))
+					case *ast.SelectStmt:
+						probs = append(probs, fmt.Sprintf("select statement (%s)", w.pos(x.Pos())))
+					case *ast.UnaryExpr:
+						if x.Op == token.ARROW {
+							probs = append(probs, fmt.Sprintf("channel receive (%s)", w.pos(x.Pos())))
+						}
+					case *ast.RangeStmt:
+						if t := info.TypeOf(x.X); t != nil {
+							if _, ok := t.Underlying().(*types.Chan); ok {
+								probs = append(probs, fmt.Sprintf("range over a channel (%s)", w.pos(x.Pos())))
+							}
+						}
+					case *ast.CallExpr:
+						if sel, ok := unparen(x.Fun).(*ast.SelectorExpr); ok {
+							if f, ok := info.Uses[sel.Sel].(*types.Func); ok && f.Pkg() != nil && f.Pkg().Path() == "sync" {
+								switch f.Name() {
+								case "Wait", "Lock", "RLock", "Do":
+									probs = append(probs, fmt.Sprintf("blocking call sync.%s (%s)", f.Name(), w.pos(x.Pos())))
+								}
+							}
+						}
+					}
+					return true
+				})
+			}
+		}
+		if pkgs == 0 {
+			probs = append(probs, "no generator package loaded: the rule would be vacuous")
+		}
+		return []OblResult{structResult("C16.sequential", "the generator packages and plugin mains contain no go statement, channel operation, select or blocking sync call: every plugin run is one thread of control, which is what the termination measures, loop rules and the no-panic sweep argue about (a deadlock is a way not to answer that they cannot see)", uniq(probs))}
+	}
+}
+
+// ---------------------------------------------------------------------------------------
+// C10: the writer an error hook is handed (responseCapture) records every way of writing through it. The two contracted
+// methods (Write sets `written`, WriteHeader sets `wroteHeader`) are what writeErrorWithHandler decides on; net/http and
+// io probe a writer for further methods (io.StringWriter, io.ReaderFrom, http.Flusher, ...) and call those *instead of*
+// Write when they exist. Rule: any further method declared on responseCapture that uses the wrapped writer starts by
+// recording the body write; promoted methods of the embedded interface are exactly Header / Write / WriteHeader.
+func init() {
+	structuralRules["emitted.c10.capture_complete"] = func(w *World) []OblResult {
+		var probs []string
+		if w.Emitted == nil {
+			return []OblResult{structResult("C10.capture.complete", "", []string{"emitted server not loaded"})}
+		}
+		pkg := w.Emitted
+		info := pkg.TypesInfo
+		found := map[string]bool{}
+		for _, file := range pkg.Syntax {
+			for _, d := range file.Decls {
+				fd, ok := d.(*ast.FuncDecl)
+				if !ok || fd.Recv == nil || len(fd.Recv.List) != 1 || fd.Body == nil {
+					continue
+				}
+				rt := info.TypeOf(fd.Recv.List[0].Type)
+				if rt == nil {
+					continue
+				}
+				if p, ok := rt.(*types.Pointer); ok {
+					rt = p.Elem()
+				}
+				nt, ok := types.Unalias(rt).(*types.Named)
+				if !ok || nt.Obj().Name() != "responseCapture" {
+					continue
+				}
+				found[fd.Name.Name] = true
+				if fd.Name.Name == "Write" || fd.Name.Name == "WriteHeader" {
+					continue
+				}
+				usesWriter := false
+				ast.Inspect(fd.Body, func(n ast.Node) bool {
+					if sel, ok := n.(*ast.SelectorExpr); ok && sel.Sel.Name == "ResponseWriter" {
+						usesWriter = true
+					}
+					return true
+				})
+				if !usesWriter {
+					continue
+				}
+				// first statement: <recv>.written = true
+				ok = false
+				if len(fd.Body.List) > 0 {
+					if as, isAs := fd.Body.List[0].(*ast.AssignStmt); isAs && len(as.Lhs) == 1 && len(as.Rhs) == 1 {
+						if sel, isSel := as.Lhs[0].(*ast.SelectorExpr); isSel && sel.Sel.Name == "written" {
+							if id, isId := as.Rhs[0].(*ast.Ident); isId && id.Name == "true" {
+								ok = true
+							}
+						}
+					}
+				}
+				if !ok {
+					probs = append(probs, fmt.Sprintf("responseCapture.%s reaches the wrapped ResponseWriter without first recording the write (written = true): a hook whose output goes through it is not seen as having written the response (%s)", fd.Name.Name, w.pos(fd.Pos())))
+				}
+			}
+		}
+		if !found["Write"] || !found["WriteHeader"] {
+			probs = append(probs, "responseCapture does not declare both Write and WriteHeader in the extracted server: the rule would be vacuous")
+		}
+		return []OblResult{structResult("C10.capture.complete", "every method the emitted responseCapture declares besides Write and WriteHeader (both under contract: they set written / wroteHeader) that uses the wrapped writer starts with `written = true`: whichever optional writer interface net/http, io or a hook probes for, a body written through the capture is recorded, so the hook's response is never followed by a second body", uniq(probs))}
 	}
 }
